@@ -2,15 +2,18 @@ import PMV.Generated.Pipeline
 import PMV.Model.Pipeline
 import PMV.Model.Minify
 import PMV.Proofs.Transforms
+import PMV.Proofs.TransformsImports
 /-
   C05 — Each option performs only its documented rewrite, only where it is valid.
   `Spec.Rewrites.canonModule c` erases exactly what the documentation lets the options in `c` do.
-  Proved: for the three statement-dropping transforms the output equals the input modulo that erasure
+  Proved: for remove_pass / remove_asserts / remove_literal_statements / remove_debug / combine_imports /
+  remove_object_base / remove_explicit_return_none the output equals the input modulo that erasure
   (for every module, at every nesting depth); a block never becomes empty; statements outside the
   dropped kind are all kept, in order; combining imports never reorders, loses or invents an imported
   name; with every switch off the transform pipeline is the identity; the stages run under exactly the
-  generated conditions.  The canon for the remaining options (debug, return None, object base,
-  annotations, positional-only markers, exception brackets) is used as an oracle on the real code.
+  generated conditions.  The canon for the remaining options (annotations, positional-only markers,
+  exception brackets — whose specification shares its helper functions with the model) is used as an oracle
+  on the real code.
 -/
 namespace PMV.C05
 open PMV PMV.Transforms PMV.Spec.Rewrites
@@ -68,12 +71,34 @@ theorem remove_literals_only_documented (m : Module) :
     · rfl
   · simp
 
+/-- T05.1 (remove_debug): output = input modulo replacing an `if __debug__:` statement by what `-O` would run. -/
+theorem remove_debug_only_documented (m : Module) :
+    canonModule { debug := true } (travModule removeDebug m) = canonModule { debug := true } m :=
+  removeDebug_canon m
+
+/-- T05.1 (remove_object_base): output = input modulo dropping `object` from base lists. -/
+theorem remove_object_only_documented (m : Module) :
+    canonModule { object := true } (travModule removeObject m) = canonModule { object := true } m :=
+  removeObject_canon m
+
+/-- T05.1 (remove_explicit_return_none): output = input modulo `return None` ≡ `return` and the bare `return`s that end a function. -/
+theorem remove_return_none_only_documented (m : Module) :
+    canonModule { returnNone := true } (travModule removeReturnNone m) = canonModule { returnNone := true } m :=
+  removeReturnNone_canon m
+
+/-- T05.1 (combine_imports): output = input modulo splitting import statements into single-name imports — so no alias is lost,
+    added, renamed or moved across another statement. -/
+theorem combine_imports_only_documented (m : Module) :
+    canonModule { imports := true } (travModule combineImports m) = canonModule { imports := true } m :=
+  combineImports_canon m
+
 /-- T05.3c: `CombineImports` keeps the sequence of imported names (no reordering, nothing lost or added). -/
 theorem combine_imports_keeps_order (b : List Stmt) :
     flattenImports (combineImport b) = flattenImports b ∧ flatFrom (combineFrom b) = flatFrom b :=
   ⟨flatten_combineImport b, flatFrom_combineFrom b⟩
 
 -- Non-vacuity
+example : (canonModule { debug := true } ⟨[.if_ (.name "__debug__" .load) [.pass] [.expr (.name "x" .load)], .expr (.name "y" .load)]⟩).body.length = 2 := by decide
 example : (filterSuite isPass false [.pass, .pass]).length = 1 ∧ (filterSuite isPass false [.pass, .pass]).all Spec.Rewrites.isZero = true := by decide
 example : (filterSuite isPass true [.pass]).length = 0 := by decide
 example : (combineFrom [.importFrom (some "a") [⟨"x", none⟩] 0, .importFrom (some "b") [⟨"y", none⟩] 0,
